@@ -54,7 +54,9 @@ def finalize(agg, tier):
 
 
 def text(rng: random.Random, n: int) -> str:
-    kind = rng.choice(["ascii", "bmp", "astral", "mixed"])
+    kind = rng.choice(["ascii", "bmp", "astral", "mixed", "tricky"])
+    if kind == "tricky":
+        return common.tricky_text(rng, n)
     alpha = {"ascii": "abcXYZ.-09", "bmp": "éßΩж中文ü", "astral": "😀𝄞𐍈", "mixed": "a.é中😀Z\x00"}[kind]
     return "".join(rng.choice(alpha) for _ in range(n))
 
@@ -245,6 +247,30 @@ def run_synth(spec, rec: Recorder):
         wit = {"shard": spec["name"], "index": i, "in_envelope": f["in_envelope"], "content_len": len(f["enc_content"]), "kw_alg": f["kw_alg"], "content_alg": f["content_alg"], "sid": f["sid"]}
         check_value(rec, f, obj, wit)
         rec.case((spec["name"], i, len(f["enc_content"]), f["sid"]), nontrivial=nontrivial_value(f, 0), sample=wit if i == 0 else None)
+        if i % 3 == 0:
+            # the same OBJECT, given other field values after it has been encoded once (it is an ordinary mutable dataclass):
+            # what it encodes to must follow its current value, not its history
+            import dataclasses
+
+            f2, obj2 = gen_value(rng, False)
+            f2["in_envelope"] = f["in_envelope"] if i % 2 else not f["in_envelope"]
+            fields = [fl.name for fl in dataclasses.fields(obj) if fl.init]
+            if i % 6 == 0:
+                fields = rng.sample(fields, rng.randrange(1, len(fields) + 1))  # only some of them
+            try:
+                for name in fields:
+                    setattr(obj, name, getattr(obj2, name))
+            except (dataclasses.FrozenInstanceError, AttributeError):
+                rec.count("value_objects_immutable")
+                continue
+            merged = dict(f)
+            merged["in_envelope"] = f2["in_envelope"]
+            back_map = {"key_identifier": ("kid", "kid"), "protection_descriptor": ("sid", "sid"), "enc_cek": ("enc_cek",) * 2, "enc_cek_algorithm": ("kw_alg",) * 2, "enc_cek_parameters": ("kw_params",) * 2, "enc_content": ("enc_content",) * 2, "enc_content_algorithm": ("content_alg",) * 2, "enc_content_parameters": ("content_params",) * 2}
+            for name in fields:
+                if name in back_map:
+                    merged[back_map[name][0]] = f2[back_map[name][1]]
+            rec.count("reencoded_after_mutation")
+            check_value(rec, merged, obj, dict(wit, kind="session-mutated-after-pack", mutated_fields=fields))
 
 
 def run_vectors(spec, rec: Recorder):
